@@ -3,7 +3,7 @@
    types, andb/orb are inlined; nat, positive and N stay extracted inductives. *)
 From Coq Require Extraction.
 From Coq Require Import ExtrOcamlBasic.
-From Flipdot Require Import Base Hex Frame Message SignType Page VSign Controller.
+From Flipdot Require Import Base Hex Frame Message SignType Page VSign Controller Io Serial Port.
 
 Extraction Language OCaml.
 Extraction "model.ml"
@@ -13,4 +13,6 @@ Extraction "model.ml"
   page_new page_from_bytes page_id get_pixel set_pixel set_all_pixels wf_pageb total_bytes data_bytes bpc
   vinit vstep vrun bus_step bus_run
   configure configure_if_needed send_pages load_next_page show_loaded_page shut_down
-  run_script run_bus chunks16.
+  run_script run_bus chunks16
+  frame_read frame_write serial_process odk_process wire_step run_wire
+  configure_port serial_bus_try_new odk_try_new.
